@@ -23,15 +23,6 @@ theorem replicate_sep {n m : Nat} {x y : Str} (h : List.replicate n '\x01' ++ '\
       obtain ⟨h1, h2⟩ := ih h
       exact ⟨by omega, h2⟩
 
-/-- digest of (grammar mtime, source mtime) -/
-def tid (g t : Nat) : Str := List.replicate g '\x01' ++ '\x02' :: List.replicate t '\x01'
-
-theorem tid_inj {g t g' t' : Nat} (h : tid g t = tid g' t') : g = g' ∧ t = t' := by
-  obtain ⟨h1, h2⟩ := replicate_sep h
-  refine ⟨h1, ?_⟩
-  have := congrArg List.length h2
-  simpa using this
-
 def encChar (c : Char) : Str := List.replicate c.toNat '\x01' ++ ['\x02']
 def encStr (s : Str) : Str := s.flatMap encChar
 /-- digest of a list of strings: a prefix code over the characters 1, 2, 3 (small codes keep nested digests short) -/
@@ -99,10 +90,6 @@ theorem encList_nodash (hs : List Str) : '-' ∉ encList hs := by
 theorem replicate_a_nodash (n : Nat) : '-' ∉ List.replicate n '\x01' := by
   intro h; have := List.eq_of_mem_replicate h; revert this; decide
 
-theorem tid_nodash (g t : Nat) : '-' ∉ tid g t := by
-  simp only [tid, List.mem_append, List.mem_cons, not_or]
-  exact ⟨replicate_a_nodash g, by decide, replicate_a_nodash t⟩
-
 /-- the decoder of the instances: the text ends with `}` and contains no other `}` -/
 def validX (d : Str) : Bool := d.getLast? == some '}' && !(d.dropLast.contains '}')
 
@@ -139,6 +126,22 @@ theorem pid_inj {gp st al gp' st' al' : Str} {g g' : Nat} (h : pid gp st al g = 
   refine ⟨h1, h2, h3, ?_⟩
   have := congrArg List.length h4
   simpa using this
+
+/-- digest of (grammar path, start, algorithm, grammar mtime, source mtime) -/
+def tid (gp st al : Str) (g t : Nat) : Str := encList [gp, st, al, List.replicate g '\x01', List.replicate t '\x01']
+
+theorem tid_inj {gp st al gp' st' al' : Str} {g t g' t' : Nat} (h : tid gp st al g t = tid gp' st' al' g' t') :
+    gp = gp' ∧ st = st' ∧ al = al' ∧ g = g' ∧ t = t' := by
+  have := encList_inj h
+  simp only [List.cons.injEq, and_true] at this
+  obtain ⟨h1, h2, h3, h4, h5⟩ := this
+  refine ⟨h1, h2, h3, ?_, ?_⟩
+  · have := congrArg List.length h4
+    simpa using this
+  · have := congrArg List.length h5
+    simpa using this
+
+theorem tid_nodash (gp st al : Str) (g t : Nat) : '-' ∉ tid gp st al g t := encList_nodash _
 
 /-! ### a payload codec for symbol tables: unary code of the characters, terminated by `c` -/
 
@@ -215,7 +218,7 @@ theorem hyp_of (S : Sem) (h1 : S.treeIdent = tid) (h2 : S.parserIdent = pid) (h3
     (h7 : ∀ gp st al g, ∃ b, S.parserBlob gp st al g = closeX b) (h8 : S.encTab = encT) (h9 : S.decTab = decT)
     (h10 : S.entry = fun p h => encList [p, h]) :
     Hyp S where
-  tree_inj := by rw [h1]; exact fun _ _ _ _ h => tid_inj h
+  tree_inj := by rw [h1]; exact fun _ _ _ _ _ _ _ _ _ _ h => tid_inj h
   tree_nodash := by rw [h1]; exact tid_nodash
   parser_inj := by rw [h2]; exact fun _ _ _ _ _ _ _ _ h => pid_inj h
   parser_nodash := by rw [h2]; exact fun _ _ _ _ => encList_nodash _
@@ -253,6 +256,14 @@ def cxSem : Sem := { baseSem with
 
 theorem cxSem_hyp : Hyp cxSem :=
   hyp_of cxSem rfl rfl rfl rfl rfl (fun _ src => ⟨src, rfl⟩) (fun _ _ _ _ => ⟨[], rfl⟩) rfl rfl rfl
+
+/-- as `cxSem`, but the tree depends on the parser: the pickle of a grammar path marks every tree parsed with it -/
+def gramSem : Sem := { cxSem with
+  parserBlob := fun gp _ _ _ => closeX gp
+  parse := fun pz src => closeX (src ++ pz.dropLast) }
+
+theorem gramSem_hyp : Hyp gramSem :=
+  hyp_of gramSem rfl rfl rfl rfl rfl (fun pz src => ⟨src ++ pz.dropLast, rfl⟩) (fun gp _ _ _ => ⟨gp, rfl⟩) rfl rfl rfl
 
 def cxWorld : World := { order := [['a'], ['b'], ['c']] }
 /-- build, change the leaf `c`, (then build again) -/
